@@ -200,11 +200,27 @@ def normalize(raw):
     # (end_contains -> is_within_end, start_contains -> is_within_start)
     left = [m for m in missing if m not in fn_map.values()]
     free = [n for n in new if n not in fn_map]
+
+    def arity(sig):
+        inner = sig.split("fn(", 1)[1] if "fn(" in sig else ""
+        depth, n, seen = 0, 0, False
+        for ch in inner:
+            if ch in "(<[":
+                depth += 1
+            elif ch in ")>]":
+                if depth == 0:
+                    break
+                depth -= 1
+            elif ch == "," and depth == 0:
+                n += 1
+            if not ch.isspace():
+                seen = True
+        return n + 1 if seen and inner and inner[0] != ")" else 0
     if left and free:
         def toks(p):
             return set(p.rsplit("::", 1)[-1].lower().split("_"))
 
-        def arity(sig):
+        def _arity_unused(sig):
             inner = sig.split("fn(", 1)[1] if "fn(" in sig else ""
             depth, n, seen = 0, 0, False
             for ch in inner:
@@ -234,6 +250,15 @@ def normalize(raw):
                 back = sorted(((len(toks(n) & toks(x)), x) for x in left if _parent(x) == _parent(n)), reverse=True)
                 if back and back[0][1] == m and (len(back) == 1 or back[0][0] > back[1][0]) and n not in fn_map:
                     fn_map[n] = m
+    # last resort inside one parent (impl block / module): exactly one function of that parent is missing and exactly one
+    # is new, same number of parameters — the one was renamed and its signature touched at the same time
+    left = [m for m in missing if m not in fn_map.values()]
+    free = [n for n in new if n not in fn_map]
+    for m in left:
+        sibs_m = [x for x in left if _parent(x) == _parent(m)]
+        sibs_n = [n for n in free if _parent(n) == _parent(m)]
+        if len(sibs_m) == 1 and len(sibs_n) == 1 and arity(cur["fns"][sibs_n[0]]["sig"]) == arity(pin["fns"][m]["sig"]) and sibs_n[0] not in fn_map:
+            fn_map[sibs_n[0]] = m
     # the impl block of a function changed its generic parameters (`impl<U> Error<U>` -> `impl Error<Infallible>`):
     # same path once the `::<..>` segments are erased
     def _erase(p):
